@@ -322,6 +322,12 @@ pub fn run_scenario(sc: &Scenario, trace: Trace, spy: bool) -> Vec<CallRecord> {
                 cfg.min_opcodes = *a;
                 cfg.max_opcodes = *b;
             }
+            HOp::SetFlags(e, b) => {
+                g.allow_ext_opcodes = *e;
+                g.allow_buffer_opcodes = *b;
+                cfg.allow_ext = *e;
+                cfg.allow_buffer = *b;
+            }
             HOp::SetRate(r) => {
                 g.mutation_rate = *r;
                 cfg.rate = *r;
